@@ -222,9 +222,7 @@ func genC11(g *Rng, tier string, emit func(Op)) {
 				sacc, _ := ir.acc.Sign(kp.sk)
 				forged := *cred.NonRevocationWitness
 				forged.SignedAccumulator = sacc
-				c2 := *cred
-				c2.NonRevocationWitness = &forged
-				_, err := (&gabi.Credential{Signature: c2.Signature, Pk: c2.Pk, Attributes: c2.Attributes, NonRevocationWitness: &forged}).CreateDisclosureProof([]int{1}, nil, true, bi(1), bi(2))
+				_, err := (&gabi.Credential{Signature: cred.Signature, Pk: cred.Pk, Attributes: cred.Attributes, NonRevocationWitness: &forged}).CreateDisclosureProof([]int{1}, nil, true, bi(1), bi(2))
 				res := "refused"
 				if err == nil {
 					res = "built"
